@@ -60,6 +60,7 @@ CASE = st.fixed_dictionaries({
     "keys": st.lists(st.sampled_from(ALL_KEYS), min_size=1, max_size=3),
     "style": st.lists(st.integers(0, 2), min_size=1, max_size=3),
     "via": st.sampled_from(["custom_sort", "custom_sort", "sort_default"]),
+    "upper": st.lists(st.booleans(), min_size=10, max_size=10),      # element i is created from the upper-case spelling of its string
 })
 
 
@@ -115,12 +116,19 @@ def build(c):
     order = sorted(range(n), key=lambda i: (c["creation"][i], i))   # creation order
     objs = [None] * n
     uid = {}
+    up = c.get("upper") or [False] * 10
+
+    def spell(i):
+        e = elems[i]
+        # ('154N97W14' is accepted and standardised to lower case; placeholders are left as they are)
+        return e.upper() if up[i % len(up)] and "z" not in e and "X" not in e and "_" not in e else e
+
     if c["kind"] == "trs":
         for i in range(n):
-            objs[i] = TRS(elems[i])
+            objs[i] = TRS(spell(i))
     else:
         for rank, i in enumerate(order):
-            objs[i] = Tract("NE/4", trs=elems[i])
+            objs[i] = Tract("NE/4", trs=spell(i))
             uid[id(objs[i])] = rank
     lst = list(objs)
     for p in c["dup"]:
@@ -196,6 +204,8 @@ def classes(c):
         out.add("has_missing")
     if c["dup"] and c["elems"]:
         out.add("same_instance_twice")
+    if any(u and "z" not in e and "X" not in e and "_" not in e for u, e in zip(c.get("upper") or [], c["elems"])):
+        out.add("created_from_upper_case")
     return sorted(out)
 
 
